@@ -130,6 +130,20 @@ CLAIMS = {
         note="tar/PAX/gzip byte-level encoding is exercised, not modelled; the specification sees the abstract tree. umask "
              "022 is set by the driver; the check runs as root. IgnoreNoName and the remote intermediate are not covered yet.",
         ref="3 C12", technique="TLA+ expectation function; TLC-emitted cases replayed through the real pipeline, outcome judged by TLC"),
+    "C13": dict(
+        text="Registry.tla is the distribution specification as a server model (state per repository, the allowed request forms "
+             "with exact path and permitted query keys, Serve) and MCRegistry.tla explores it; a real remote.Repository is driven "
+             "through generated API histories (push, fetch, exists, resolve by tag and digest, tag, push/fetch by reference, "
+             "delete, mount from another repository, predecessors, tags, Seek/Read sequences on fetched blobs) against the "
+             "harness's in-process registry under random capability profiles (Referrers API, digest headers, range, mount, page "
+             "limit), with single-field corruptions (digest header, length, media type, body) of otherwise valid responses; "
+             "RegistryMon.tla replays every logged exchange through Serve (the in-process registry is thereby validated against "
+             "the model), judges every request against the allowed forms, every API result against the model state, that a call "
+             "which received a contradicting response failed, and Seek/Read against a reader over the blob.",
+        note="'Allowed by the specification' is relative to the request forms written in Registry.tla. Known finding F17 "
+             "(Resolve by tag needs the optional Docker-Content-Digest header) is matched by signature. Fixed in /repo: F11. "
+             "Histories are sequential; ManifestMediaTypes and custom page sizes are not varied yet.",
+        ref="3 C13", technique=TECH + " (RegistryMon.tla: exchanges replayed on the registry model, API results judged)"),
     "C15": dict(
         text="PagingModel.tla gives the distribution specification's paginating server and the client loop as functions; "
              "Paging.tla checks over the full case space (list of <= 3-4 items, last, client page size, server cap, Link form "
